@@ -53,7 +53,8 @@ MORE = [
 def gen_case(rng, tier, index):
     cases = []
     for _ in range(BATCH[tier]):
-        g = gen_rewrite.Gen(rng, tier, shared_blocks=True)
+        g = gen_rewrite.Gen(rng, tier, shared_blocks=True, fnscope_p=0.9,
+                            anywhere_p=0.8)
         g.module()
         g.edits()
         regs = {"x64": ["rax", "rbx", "rcx", "rdx", "rsi", "r8", "r12"],
@@ -71,6 +72,7 @@ def gen_case(rng, tier, index):
                     "scratch": rng.randrange(0, 3),
                     "caller": rng.random() < 0.2,
                     "align": rng.random() < 0.2}
+        g.case["second_rewrite"] = rng.random() < 0.4
         cases.append(g.case)
     return {"cases": cases, "tier": tier}
 
